@@ -323,8 +323,13 @@ package getoptions
 // A user command function: may do anything to the program's state; the call itself is recorded.
 //@ func type CommandFn(ctx, opt, args)
 //@   props C10 C11
+//@   callback
 //@   ensures cmd.event {C10,C11}: $cmdcalls == old($cmdcalls) + 1 && $cmdfn == $fn && $cmdctx == ctx && $cmdview == old(opt.programTree)
 //@     && $cmdviewfinal == old(opt.finalNode) && identical($cmdargs, args) && $cmdresult == result
+// Assumption about user task functions: they do not rewire the dag graph they run in.
+//@   ensures cmd.graph {C13,C15}: (forall u *dag.Vertex :: u.Retries == old(u.Retries) && u.ID == old(u.ID) && u.Task == old(u.Task))
+//@     && (forall t *dag.Task :: t.Fn == old(t.Fn) && t.ID == old(t.ID))
+//@     && (forall q *dag.Graph :: q.bufferOutput == old(q.bufferOutput) && q.bufferWriter == old(q.bufferWriter))
 //@ end
 
 //@ spec func Missing(o *option.Option) bool = o.IsRequired && !o.Called
